@@ -108,7 +108,7 @@ CHECKS = {
                 "a chosen deletion makes the object deleted and absent from the document; choosing the winner leaves the document unchanged; for arrays the chosen leaf's surviving elements keep their order. Each fork commits and a fresh replica that melds it must show the same state; "
                 "two forks that chose different leaves exchange and must converge. In-history resolutions add the same checks. non-trivial = a leaf set of >=3, a deleted leaf chosen, or an array descriptor resolved." + DISTINCT,
         "assumptions": ASSUME_COMMON + ["the merged order produced by resolving an array is not modelled; only the clauses the property states are asserted"],
-        "jobs": [mode("forks", "c07", (960, 24000), args={"profile": "conflict"}), mode("forks-lowlevel", "c07", (160, 8000), args={"profile": "lowlevel"}), engine("inline", "conflict", "C07", (800, 24000))],
+        "jobs": [mode("forks", "c07", (960, 24000), args={"profile": "conflict"}), mode("forks-lowlevel", "c07", (160, 8000), args={"profile": "lowlevel"}), mode("forks-kind", "c07", (480, 16000), args={"profile": "kind"}), engine("inline", "conflict", "C07", (800, 24000))],
     },
     "C08": {
         "level": "exploration", "floor": 20,
@@ -150,7 +150,7 @@ CHECKS = {
         "rule": "serialised read() before vs after commit (incl. its automatic array resolution), stage_full_snapshot, meld alone, and refresh/reload on a replica that is not behind and has nothing staged (for these also full state); a refused refresh/reload must leave everything untouched. "
                 "Histories are conflict-heavy with elements removed on one branch and kept on another, staged changes present. non-trivial = a commit or snapshot ran with >=1 flattened array in conflict." + DISTINCT,
         "assumptions": ASSUME_COMMON,
-        "jobs": [engine("maint", "maint", "C12", (1600, 60000)), engine("conflict", "conflict", "C12", (480, 30000)), engine("lowlevel", "lowlevel", "C12", (320, 16000))],
+        "jobs": [engine("maint", "maint", "C12", (1600, 60000)), engine("conflict", "conflict", "C12", (480, 30000)), engine("lowlevel", "lowlevel", "C12", (320, 16000)), engine("kind", "kind", "C12", (640, 30000))],
     },
     "C13": {
         "level": "exploration", "floor": 20,
